@@ -121,6 +121,23 @@ func (g *gen) genStalls() []*simfs.Fault {
 	return out
 }
 
+// genMarkerFaults draws 1-2 rules that fail operations on marker files (format
+// version and manifest markers) or directory syncs (fmv profile, C40).
+func (g *gen) genMarkerFaults() []*simfs.Fault {
+	var out []*simfs.Fault
+	n := 1 + g.r.IntN(2)
+	for i := 0; i < n; i++ {
+		f := &simfs.Fault{Name: "marker", Errno: "EIO", Skip: g.r.IntN(12), Count: 1 + g.r.IntN(2),
+			Kinds: simfs.KindMask(simfs.OpCreate, simfs.OpWrite, simfs.OpSync), Classes: simfs.ClassMask(simfs.ClsMarker)}
+		if g.r.IntN(4) == 0 {
+			f.Name, f.Kinds, f.Classes = "dirsync", simfs.KindMask(simfs.OpSyncDir), 0
+			f.Skip = g.r.IntN(40)
+		}
+		out = append(out, f)
+	}
+	return out
+}
+
 // genSyncFaults draws 1-2 rules that fail a few directory syncs or file syncs
 // of tables, blob files or the MANIFEST (flushdur profile, C12).
 func (g *gen) genSyncFaults() []*simfs.Fault {
